@@ -69,7 +69,7 @@ Definition cfg_eqb (a b : cfg) : bool :=
 Definition succ_eqb (a b : Z * option expr) : bool := (fst a =? fst b) && optexpr_eqb (snd a) (snd b).
 (* the whole tie for a mirrored (straight-line) form: same graph, and the only successor is the fall-through *)
 Definition syntactic_tie (m : mode) (addr len : Z) (i : instr) (g : cfg) (succ : list (Z * option expr)) : bool :=
-  match mirror_instr m addr i with
+  match mirror_instr m addr len i with
   | Some (Ok g') => cfg_eqb g' g && list_eqb succ_eqb succ (mirror_succ m addr len i)
   | _ => false
   end.
